@@ -129,13 +129,149 @@ func (c *Ctx) computePopFacts() (*popFacts, *pop.Population, error) {
 func (c *Ctx) popFactsCached() *popFacts {
 	k := c.cache()
 	if k.pf == nil {
-		pf, _, err := c.computePopFacts()
+		pf, pp, err := c.computePopFacts()
 		if err != nil {
 			pf = &popFacts{conds: map[string]bool{}}
+		} else {
+			c.extraConditions(pf, pp)
 		}
 		k.pf = pf
 	}
 	return k.pf
+}
+
+// extraConditions: K (kind tables cover the population), unregistered:<type>, hints-are-slices,
+// iface-convert-guarded, haveFlag-callers-struct-checked.
+func (c *Ctx) extraConditions(pf *popFacts, pp *pop.Population) {
+	// K
+	tlpk := c.P.Pkg(load.TLPkg)
+	encD, _ := c.declOf(load.TLPkg, "*Encoder", "encodeValue")
+	decD, _ := c.declOf(load.TLPkg, "*Decoder", "decodeValue")
+	decG, _ := c.declOf(load.TLPkg, "*Decoder", "decodeValueGeneral")
+	encT := kindSwitches(tlpk, encD)
+	decT := append(kindSwitches(tlpk, decG), kindSwitches(tlpk, decD)...)
+	kOK := len(encT) == 1 && len(decT) == 2
+	if kOK {
+		for k := range pf.fieldKinds {
+			da, ok := decT[0][k]
+			if !ok || da.class == "none" {
+				da, ok = decT[1][k]
+			}
+			ea, eok := encT[0][k]
+			if !ok || !eok || da.class != "codec" || ea.class != "codec" {
+				kOK = false
+			}
+		}
+	}
+	pf.conds["K"] = kOK
+	for _, m := range pp.Unregistered {
+		pf.conds["unregistered:"+shortPkg(m.Pkg)+"."+m.Name] = true
+	}
+	// hints-are-slices
+	hints, allSlices := 0, true
+	for f := range c.P.AllFunctions() {
+		if !c.P.InRepo(f) || f.Synthetic != "" {
+			continue
+		}
+		for _, cs := range an.Calls(f) {
+			if !strings.HasSuffix(cs.Name, "MakeRequestWithHintToDecoder") || strings.Contains(an.ShortName(f), "MakeRequestWithHintToDecoder") {
+				continue
+			}
+			args := cs.Common.Args
+			if len(args) < 3 {
+				continue
+			}
+			for _, el := range variadicElems(args[len(args)-1]) {
+				hints++
+				call, ok := el.(*ssa.Call)
+				if !ok || an.CalleeName(call.Common()) != "reflect.TypeOf" {
+					allSlices = false
+					continue
+				}
+				mi, ok := call.Call.Args[0].(*ssa.MakeInterface)
+				if !ok {
+					allSlices = false
+					continue
+				}
+				if _, ok := mi.X.Type().Underlying().(*types.Slice); !ok {
+					allSlices = false
+				}
+			}
+		}
+	}
+	pf.conds["hints-are-slices"] = hints > 0 && allSlices
+	// iface-convert-guarded: in decodeValue, with the kind switch forced to the Interface arm, the final Convert is
+	// unreachable once the true edge of the ConvertibleTo test is removed
+	if dv := c.P.Func(load.TLPkg, "*Decoder", "decodeValue"); dv != nil {
+		ok := false
+		var converts []ssa.Instruction
+		for _, cs := range an.CallsNamed(dv, "(reflect.Value).Convert") {
+			converts = append(converts, cs.Instr)
+		}
+		for _, i := range an.Ifs(dv) {
+			cd, okc := an.Classify(i)
+			if !okc || cd.Kind != "call:invoke:(reflect.Type).ConvertibleTo" {
+				continue
+			}
+			cut := map[an.Edge]bool{cd.EdgeWhen(true): true}
+			reach := an.ReachWith(dv, cut, func(j *ssa.If) (int, bool) {
+				// kind dispatch: value.Kind() == k → only k == Interface (20) is taken
+				c2, ok2 := an.Classify(j)
+				if !ok2 || c2.Kind != "eq" {
+					return 0, false
+				}
+				call, okk := c2.X.(*ssa.Call)
+				if !okk || an.CalleeName(call.Common()) != "(reflect.Value).Kind" {
+					return 0, false
+				}
+				k, okk := an.ConstInt(c2.Y)
+				if !okk {
+					return 0, false
+				}
+				return c2.EdgeWhen(k == 20).Succ, true
+			})
+			ok = len(converts) > 0
+			for _, cv := range converts {
+				// the Convert of the basic-kind fast path precedes the switch and is not concerned
+				if reach[cv.Block()] && cv.Block().Index > i.Block().Index {
+					ok = false
+				}
+			}
+		}
+		pf.conds["iface-convert-guarded"] = ok
+	}
+	// haveFlag-callers-struct-checked
+	if hf := c.P.Func(load.TLPkg, "", "haveFlag"); hf != nil {
+		n, ok := 0, true
+		for f := range c.P.AllFunctions() {
+			if !c.P.InRepo(f) {
+				continue
+			}
+			for _, cs := range an.Calls(f) {
+				if an.StaticCallee(cs.Common) != hf {
+					continue
+				}
+				n++
+				guarded := an.DominatingGuard(f, cs.Instr, func(cd *an.Cond) int {
+					if cd.Kind != "eq" {
+						return -1
+					}
+					call, okk := cd.X.(*ssa.Call)
+					if !okk || an.CalleeName(call.Common()) != "(reflect.Value).Kind" {
+						return -1
+					}
+					if k, okk := an.ConstInt(cd.Y); okk && k == 25 { // reflect.Struct
+						return cd.EdgeWhen(true).Succ
+					}
+					return -1
+				})
+				if !guarded {
+					ok = false
+				}
+			}
+		}
+		pf.conds["haveFlag-callers-struct-checked"] = n > 0 && ok
+	}
 }
 
 func c01(c *Ctx) {
